@@ -83,9 +83,12 @@ def floors(tier):
          "binding:manual-sweep": 330, "identity:normalize=False": 330, "identity:normalize=True": 330,
          "cut_multiset_checks": 1200, "cut_multiset_binding": 160, "schmidt_cuts_compared": 1400, "entropies_compared": 1400,
          "norm_compared": 300, "is_canonical_checked": 600, "final_to_tensor_crosschecks": 500, "start:ghz": 36,
-         "start:doubled": 40, "states_with_site_amplitude_scale": 150, "states_with_tiny_site_amplitude": 80,
-         "states_with_huge_site_amplitude": 40, "states_with_site_amplitude_scale_and_factor": 40, "start:graded": 60, "start:graded-harness": 25, "small_weight_truncations": 25,
-         "small_weight_local_truncations": 25, "weights_compared_relatively": 600, "local_weights_compared_relatively": 1200, "start:sum-of-products": 40, "start:random": 40, "rank_deficient_cuts": 30, "tie_cuts": 28,
+         "start:doubled": 40, "twin_checks": 100, "start:zero-state": 15, "start:product": 25, "start:identity": 3,
+         "opts:D_block-dict-shuffled": 40, "opts:D_block-dict-shuffled:binding": 20, "defaults:canonize_": 150,
+         "defaults:canonize_:all-omitted": 25, "defaults:truncate_": 60, "defaults:orthogonalize_site_": 80,
+         "defaults:absorb_central_": 100, "defaults:diagonalize_central_": 40, "states_with_site_amplitude_scale": 150, "states_with_tiny_site_amplitude": 80,
+         "states_with_huge_site_amplitude": 40, "states_with_site_amplitude_scale_and_factor": 40, "start:graded": 60, "start:graded-harness": 25, "small_weight_truncations": 20,
+         "small_weight_local_truncations": 20, "weights_compared_relatively": 600, "local_weights_compared_relatively": 1200, "start:sum-of-products": 40, "start:random": 40, "rank_deficient_cuts": 30, "tie_cuts": 28,
          "kind:mpo": 120, "N=1": 30, "N=2": 150, "N=6": 60, "must_reject": 70}
     return {name: v * k for name, v in f.items()}
 
@@ -156,7 +159,10 @@ class Prog:
         self.q = q
         dtype = rng.choice(("float64", "complex128"))
         how = rng.choice(("harness", "harness", "harness", "random", "sum-of-products", "doubled", "ghz", "graded", "graded",
-                          "graded-harness"))
+                          "graded-harness", "product"))
+        if how == "product" and kind == "mpo" and rng.random() < 0.5:
+            how, q = "identity", zero
+            self.q = q
         if how == "random" and kind == "mpo" and q != zero:
             how = "harness"
         desc = None
@@ -179,6 +185,13 @@ class Prog:
                 ctx.count("random_start_zero_state_rejected")
                 raise CaseSkip
             desc = [sorted((list(t), d) for t, d in tD.items()) for tD in psi.get_bond_charges_dimensions()]
+        elif how == "product":
+            ch = product_chain(rng, nprng, loc, N, kind, q, dtype)          # bond dimension one everywhere
+            psi = ch.to_yastn()
+            desc = ch.bond_desc()
+        elif how == "identity":
+            psi = mps.product_mpo(loc.ops.I(), N)                           # the identity operator
+            desc = "product_mpo(I, N)"
         elif how == "graded":
             # a dominant state plus product states with amplitudes 1e-3 .. 1e-10 (each part normalised): Schmidt spectra spanning
             # many orders of magnitude, so that tol / D_total cut inside the tail and discard weights of 1e-12 .. 1e-6
@@ -285,6 +298,32 @@ class Prog:
         self.v = v
         self.cond_rel = max(1.0, self.cond_scale() / R.nrm(v))
 
+    # ---- how calls are spelled ------------------------------------------------
+    def call(self, name, f, defaults, *args, **vals):
+        """Call ``f``; keyword arguments that equal their documented default are omitted half of the time."""
+        kw, omitted = {}, False
+        for k, v in vals.items():
+            if k in defaults and defaults[k] == v and type(defaults[k]) is type(v) and self.rng.random() < 0.5:
+                omitted = True
+                continue
+            kw[k] = v
+        if omitted:
+            self.ctx.count("defaults:" + name)
+            if not any(k in defaults for k in kw):
+                self.ctx.count("defaults:" + name + ":all-omitted")
+        return f(*args, **kw)
+
+    def dblock_dict(self, binding):
+        """opts_svd with per-sector limits given as a dictionary over every charge a bond of this chain can carry, built in
+        shuffled insertion order."""
+        ts = sorted(set().union(*R.reach_sets(self.loc, self.N, self.kind)))
+        self.rng.shuffle(ts)
+        opts = {"D_block": {t: (self.rng.randint(1, 2) if binding else 10000) for t in ts}}
+        if self.rng.random() < 0.4:
+            opts["D_total"] = self.rng.choice((2, 3, 4)) if binding else 100000
+        self.ctx.count("opts:D_block-dict-shuffled" + (":binding" if binding else ""))
+        return opts
+
     # ---- observation & comparisons ------------------------------------------
     def obs(self, what):
         d, bad = R.obs_sites(self.psi, self.loc)
@@ -365,7 +404,7 @@ class Prog:
         to, nz = rng.choice(("first", "last")), rng.random() < 0.5
         self.steps.append(["canonize_", to, nz])
         n0, cr0 = R.nrm(self.v), self.cond_rel          # conditioning of the representation the sweep starts from
-        out = psi.canonize_(to=to, normalize=nz)
+        out = self.call("canonize_", psi.canonize_, {"to": "first", "normalize": True}, to=to, normalize=nz)
         if out is not psi:
             ctx.violation("canonize_:return", "canonize_ does not return self")
         self.count_step("canonize_", nz)
@@ -399,7 +438,7 @@ class Prog:
         rng, psi, ctx, N = self.rng, self.psi, self.ctx, self.N
         n, to, nz = rng.randrange(N), rng.choice(("first", "last")), rng.random() < 0.5
         self.steps.append(["orthogonalize_site_", n, to, nz])
-        psi.orthogonalize_site_(n, to=to, normalize=nz)
+        self.call("orthogonalize_site_", psi.orthogonalize_site_, {"to": "first", "normalize": True}, n, to=to, normalize=nz)
         self.count_step("orthogonalize_site_", nz)
         what = f"orthogonalize_site_({n}, to={to}, normalize={nz})"
         exp_pC = (n - 1, n) if to == "first" else (n, n + 1)
@@ -420,10 +459,12 @@ class Prog:
     def step_diagonalize(self, opts=None):
         rng, psi, ctx = self.rng, self.psi, self.ctx
         opts = dict(rng.choice(NONBINDING)) if opts is None else opts
+        if rng.random() < 0.12:
+            opts = self.dblock_dict(binding=False)
         nz = rng.random() < 0.5
         self.steps.append(["diagonalize_central_", opts, nz])
         pC = psi.pC
-        dl = psi.diagonalize_central_(opts_svd=opts, normalize=nz)
+        dl = self.call("diagonalize_central_", psi.diagonalize_central_, {"normalize": True}, opts_svd=opts, normalize=nz)
         self.count_step("diagonalize_central_", nz)
         what = f"diagonalize_central_({opts}, normalize={nz}) at {pC}"
         if psi.pC != pC:
@@ -444,7 +485,7 @@ class Prog:
         to = rng.choice(("first", "last"))
         self.steps.append(["absorb_central_", to])
         had = psi.pC
-        psi.absorb_central_(to=to)
+        self.call("absorb_central_", psi.absorb_central_, {"to": "last"}, to=to)
         self.count_step("absorb_central_", None)
         what = f"absorb_central_(to={to}) from {had}"
         if psi.pC is not None or len(psi.A) != self.N:
@@ -455,10 +496,10 @@ class Prog:
     def step_truncate_nonbinding(self):
         rng, psi, ctx = self.rng, self.psi, self.ctx
         to, nz = rng.choice(("first", "last")), rng.random() < 0.5
-        opts = dict(rng.choice(NONBINDING))
+        opts = dict(rng.choice(NONBINDING)) if rng.random() > 0.12 else self.dblock_dict(binding=False)
         self.steps.append(["truncate_", to, opts, nz])
         n0, cr0 = R.nrm(self.v), self.cond_rel
-        dl = psi.truncate_(to=to, opts_svd=opts, normalize=nz)
+        dl = self.call("truncate_", psi.truncate_, {"to": "last", "normalize": True}, to=to, opts_svd=opts, normalize=nz)
         self.count_step("truncate_nonbinding", nz)
         what = f"truncate_(to={to}, {opts}, normalize={nz})"
         if psi.pC is not None or len(psi.A) != self.N:
@@ -569,6 +610,8 @@ class Prog:
         rng, ctx = self.rng, self.ctx
         to, nz = rng.choice(("first", "last")), rng.random() < 0.5
         opts = dict(rng.choice(TAIL if (self.how.startswith("graded") and rng.random() < 0.8) else BINDING))
+        if rng.random() < 0.1:
+            opts = self.dblock_dict(binding=True)
         manual = rng.random() < 0.5
         psi0 = self.prepare_opposite(to)
         n0 = R.nrm(psi0)
@@ -587,7 +630,7 @@ class Prog:
                 raise Stop
             ctx.count("binding:manual-sweep")
         else:
-            delta = self.psi.truncate_(to=to, opts_svd=opts, normalize=nz)
+            delta = self.call("truncate_", self.psi.truncate_, {"to": "last", "normalize": True}, to=to, opts_svd=opts, normalize=nz)
             ctx.count("binding:truncate_")
         self.count_step("truncate_binding", nz)
         psi = self.psi
@@ -733,11 +776,106 @@ class Prog:
             raise Stop
 
     # ---- driver -------------------------------------------------------------------
+    def run_zero(self):
+        """Vanishing states: what is defined is judged (the state stays zero, norm() is 0, nothing raises with normalize=False);
+        normalisation of a zero vector, its Schmidt values and entropies are not defined: those calls are only counted."""
+        import yastn.tn.mps as mps
+        rng, ctx = self.rng, self.ctx
+        self.start()
+        psi, scale = self.psi, max(self.cond_scale(), R.nrm(self.v))
+        mode = rng.choice(("factor-zero", "zero-site", "psi-minus-psi", "zero-amplitudes"))
+        if psi.pC is not None:
+            psi.absorb_central_()
+        if mode == "factor-zero":
+            z = rng.choice((0, 0.0, 0j, -0.0)) * psi
+        elif mode == "zero-site":
+            z = psi.shallow_copy()
+            n = rng.randrange(self.N)
+            z[n] = 0.0 * z[n]
+        elif mode == "psi-minus-psi":
+            z, scale = psi - psi, 2 * scale
+        else:
+            z = mps.add(psi, psi, amplitudes=[0, rng.choice((0.0, -0.0, 0j))])
+        self.how, self.psi = "zero:" + mode, z
+        ctx.count("start:zero-state")
+        ctx.count("zero-state:" + mode)
+        tol = CT * R.EPS * scale
+
+        def is_zero(what):
+            obs = self.obs(what)
+            ctx.count("state_comparisons")
+            if not ctx.margin("zero-state", R.maxabs(obs), tol):
+                ctx.violation("zero-state-became-nonzero:" + what.split("(")[0], f"{mode}: after {what} the dense state has max |element| "
+                              f"{R.maxabs(obs):.3e} (scale {scale:.3e})", self.witness())
+                raise Stop
+
+        is_zero("construction")
+        nrm = z.norm()
+        self.steps.append(["norm"])
+        if not ctx.margin("zero-state:norm", abs(nrm), tol * np.sqrt(max(1, self.v.size))):
+            ctx.violation("norm-value:zero-state", f"{mode}: norm() = {nrm!r}", self.witness())
+        for _ in range(rng.randint(2, 4)):
+            to = rng.choice(("first", "last"))
+            kind = rng.choice(("canonize_", "truncate_", "site"))
+            self.steps.append([kind, to, False])
+            if kind == "canonize_":
+                z.canonize_(to=to, normalize=False)
+            elif kind == "truncate_":
+                z.truncate_(to=to, opts_svd=dict(rng.choice(NONBINDING)), normalize=False)
+            else:
+                z.orthogonalize_site_(rng.randrange(self.N), to=to, normalize=False)
+                z.absorb_central_(to=rng.choice(("first", "last")))
+            ctx.count("zero-state:step:" + kind)
+            self.count_step("zero-state", False)
+            is_zero(f"{kind}(to={to}, normalize=False)")
+            if mode == "factor-zero" and z.factor != 0:
+                ctx.violation("factor:zero-state", f"factor 0 became {z.factor!r} after {kind}", self.witness())
+        # undefined territory: only counted
+        for name, f in (("canonize_(normalize=True)", lambda: z.shallow_copy().canonize_(to="first")),
+                        ("truncate_(normalize=True)", lambda: z.shallow_copy().truncate_(opts_svd={"D_total": 4})),
+                        ("get_Schmidt_values", lambda: z.get_Schmidt_values()), ("get_entropy", lambda: z.get_entropy())):
+            try:
+                f()
+                ctx.count("zero-state:undefined:" + name + ":returns")
+            except Exception as e:          # not judged: normalising a zero vector is not defined
+                ctx.count("zero-state:undefined:" + name + ":raises-" + type(e).__name__)
+
+    def check_twin(self):
+        """A copy taken earlier must still represent the state it had then; sweeping on it must not move self.psi."""
+        ctx, rng = self.ctx, self.rng
+        how, twin, v_twin = self.twin
+        now, bad = R.obs_sites(twin, self.loc)
+        ctx.count("twin_checks")
+        if bad or now.shape != v_twin.shape or not np.array_equal(now, v_twin):
+            ctx.violation("twin-changed:" + how, f"the {how}() taken before {self.twin_at} changed its represented state while the original "
+                          f"was swept in place (max diff {R.maxabs(now - v_twin) if not bad else bad})", self.witness())
+            raise Stop
+        if R.nrm(v_twin) > 0:
+            twin.canonize_(to=rng.choice(("first", "last")), normalize=False)
+            if rng.random() < 0.5:
+                twin.truncate_(to=rng.choice(("first", "last")), opts_svd={"D_total": 1}, normalize=True)
+            mine = self.obs("after sweeping the twin")
+            if not ctx.margin("twin:original", R.maxabs(mine - self.v), CT * R.EPS * max(R.nrm(self.v), self.cond_scale(), self.cond_rel * R.nrm(self.v))):
+                ctx.violation("twin-changed:original-after-sweep-on-" + how, f"canonize_/truncate_ on the {how}() moved the original by "
+                              f"{R.maxabs(mine - self.v):.3e}", self.witness())
+                raise Stop
+
     def run(self):
         rng = self.rng
+        if rng.random() < 0.05:
+            return self.run_zero()
         self.start()
         nsteps = rng.randint(3, 8)
-        for _ in range(nsteps):
+        self.twin = None
+        twin_step = rng.randrange(nsteps) if rng.random() < 0.35 else -1
+        for istep in range(nsteps):
+            if istep == twin_step:
+                how = rng.choice(("shallow_copy", "copy", "clone"))
+                twin = getattr(self.psi, how)()
+                v_twin, bad = R.obs_sites(twin, self.loc)
+                if not bad:
+                    self.twin, self.twin_at = (how, twin, v_twin), f"step {istep}"
+                    self.steps.append(["twin", how])
             if self.psi.pC is not None:
                 self.step_absorb() if rng.random() < 0.6 else self.step_canonize()
                 continue
@@ -754,6 +892,8 @@ class Prog:
                 self.step_must_reject()
             else:
                 self.step_binding()
+        if self.twin is not None:
+            self.check_twin()
         if self.psi.pC is None:
             a = R.obs_tensor(self.psi, self.loc)
             self.ctx.count("final_to_tensor_crosschecks")
